@@ -16,7 +16,7 @@ def run(ctx):
     scope = 2 if thorough else 1
     # 1. MC: the (items, token) state machine with small constants (thorough: also default = cap and
     #    default = 1, so that the default/cap case analysis is covered in every relation)
-    for default, cap, sc in ([(2, 4, 2), (1, 5, 2), (3, 3, 1)] if thorough else [(2, 4, 1)]):
+    for default, cap, sc in ([(2, 4, 2), (1, 5, 1), (3, 3, 1)] if thorough else [(2, 4, 1)]):
         ctx.mc("Paging", "PagingMC.cfg", consts={"Default": default, "Max": cap, "Scope": sc},
                workers=vf.NCPU, deadlock=False, timeout=1500)
     # 2. Gen: the same state machine walks the grid with the real constants (one worker: the random
